@@ -325,6 +325,10 @@ class Types:
                 return self.note(ct, self.cfg.get('type_kinds', {}).get(ct, 'handle'))
         if t in SCALARS:
             return self.note(SCALARS[t], 'scalar')
+        m = re.match(r'^(?:__gnu_cxx::__enable_if|std::enable_if)<(.*)>::_*type$', t)
+        if m:
+            a = split_targs(m.group(1))
+            return self.ctype(a[1] if len(a) > 1 else 'void')
         for suf in ('::pointer', '::reference'):
             if t.endswith(suf) and t[:-len(suf)].endswith('>'):
                 base = self.ctype(t[:-len(suf)])
@@ -334,6 +338,13 @@ class Types:
                 if suf == '::reference' or self.kind(e) == 'handle':
                     return e
                 return e + ' *'
+        for suf in ('::reverse_iterator', '::const_reverse_iterator'):
+            if t.endswith(suf) and t[:-len(suf)].endswith('>'):
+                base = self.ctype(t[:-len(suf)])
+                e = self.elem.get(base)
+                if base.startswith('vec_'):
+                    return self.note('vecrit_' + sanitize(e), 'value', e)
+                raise Unsupported('reverse iterator of %r' % base)
         for suf in ('::iterator', '::const_iterator'):
             if t.endswith(suf) and t[:-len(suf)].endswith('>'):
                 base = self.ctype(t[:-len(suf)])
@@ -351,6 +362,10 @@ class Types:
                 return inner          # pointer to opaque object == its handle
             return inner + ' *'
         name, args = tmpl(t)
+        if name in ('__optional_eq_t', '__optional_ne_t', '__optional_lt_t', '__optional_gt_t', '__optional_le_t',
+                    '__optional_ge_t', 'std::__optional_eq_t', 'std::__optional_ne_t', 'std::__optional_lt_t',
+                    'std::__optional_gt_t', 'std::__optional_le_t', 'std::__optional_ge_t'):
+            return self.note('_Bool', 'scalar')
         if args is None:
             if t.startswith('Oomd::'):
                 return self.oomd_type(t)
@@ -372,6 +387,10 @@ class Types:
             for pre in ('Oomd::', 'Oomd::Engine::', 'Oomd::Fs::'):
                 if pre + t in self.index.records or pre + t in self.index.enums:
                     return self.oomd_type(pre + t)
+            cands = [k for k in list(self.index.records) + list(self.index.enums)
+                     if k.endswith('::' + t) and not k.endswith('<spec>')]
+            if len(set(cands)) == 1:
+                return self.oomd_type(cands[0])
             raise Unsupported('unknown type %r' % t)
         if name == 'std::optional':
             e = self.ctype(args[0])
@@ -422,6 +441,12 @@ class Types:
             if r in DUR:
                 return self.note(DUR[r], 'value')
             raise Unsupported('duration ratio %r' % r)
+        if name == 'std::reverse_iterator':
+            inner = self.ctype(args[0])
+            if inner.startswith('vecit_'):
+                e = self.elem.get(inner)
+                return self.note('vecrit_' + sanitize(e), 'value', e)
+            raise Unsupported('reverse iterator over %r' % inner)
         if name == '__gnu_cxx::__normal_iterator':
             e = self.ctype(args[0])   # 'T *' -> handle or 'T *'
             e = e[:-2] if e.endswith(' *') else e
@@ -649,6 +674,8 @@ class FnEmitter:
             if name == 'nullopt':
                 return 'NULLOPT'
             rid = r['id']
+            if rid in self.lambda_vars:
+                return self.lambda_vars[rid].get('_cname', '0')
             nm = self.renames.get(rid, sanitize(name))
             if rid in self.ptr_params or rid in self.locals_ptr:
                 return '(*%s)' % nm
@@ -675,6 +702,8 @@ class FnEmitter:
                 cal = self.strip(kids(cal)[0])
             if cal.get('referencedDecl', {}).get('name') == 'operator->':
                 pct = bct[:-2] if bct.endswith(' *') else bct
+                if be.startswith('(*') and '__ref(' in be:
+                    return '%s.%s' % (be, sanitize(name))
                 if self.ty.kind(pct) == 'handle':
                     return '%s__get_%s(%s)' % (pct, sanitize(name), be)
                 return '%s.%s' % (be, sanitize(name))
@@ -1007,6 +1036,14 @@ class FnEmitter:
             return '%s__op_assign__%s(&%s, %s)' % (
                 sanitize(ct0), sanitize(ct1), self.expr(a0), self.expr(args[1]))
         on = self.opname(name, len(args))
+        el = self.ty.elem.get(ct0)
+        if el and self.ty.is_oomd_struct(el) and (
+                (op in ('*', '->') and len(args) == 1 and ct0.split('_')[0] in ('vecit', 'deqit', 'vecrit', 'mapit')) or
+                (op == '[]' and ct0.split('_')[0] in ('vec', 'deq'))):
+            # element of struct type: a reference into the container (so that writes through it are kept)
+            if op == '[]':
+                return '(*%s__ref_at(%s, %s))' % (sanitize(ct0), self.expr(a0), self.expr(args[1]))
+            return '(*%s__ref(%s))' % (sanitize(ct0), self.expr(a0))
         mut = op in MUTATING_OPS and not (op == '[]' and ct0.startswith('vec_'))
         rid = ref.get('id')
         q = self.idx.qname.get(rid)
@@ -1722,7 +1759,11 @@ class Unit:
         if text == '':
             return 'STR_EMPTY'
         if text not in self.strlits:
-            self.strlits[text] = 'STRLIT_%d' % len(self.strlits)
+            import zlib
+            nm = 'STR_' + sanitize(text)[:48]
+            if nm in self.strlits.values():
+                nm += '_%04x' % (zlib.crc32(text.encode()) & 0xffff)
+            self.strlits[text] = nm
         return self.strlits[text]
 
     def note_self_field(self, em, name, node):
@@ -1766,6 +1807,18 @@ class Unit:
         return t0
 
     def global_var(self, rid, r):
+        node = self.index.node.get(rid)
+        if node is not None:
+            x = node
+            ks = kids(x)
+            while ks:
+                x = ks[0]
+                if x.get('kind') == 'StringLiteral':
+                    v = x['value']
+                    return self.strlit(json.loads(v) if v.startswith('"') else v)
+                if x.get('kind') == 'IntegerLiteral' and len(kids(node)) == 1:
+                    pass
+                ks = kids(x)
         q = self.index.qname[rid]
         nm = 'g__' + sanitize(q[len('Oomd::'):] if q.startswith('Oomd::') else q)
         self.globals[nm] = r
@@ -2031,9 +2084,10 @@ class Unit:
         # string literals
         if self.strlits:
             out.append('/* string literals (interned) */')
+            import zlib
             for text, nm in self.strlits.items():
                 out.append('#define %s ((str_t)(%d)) /* %s */' % (
-                    nm, 1000 + int(nm.split('_')[1]), json.dumps(text)))
+                    nm, 1000000 + (zlib.crc32(text.encode()) & 0xffffff), json.dumps(text)))
         if self.exc_kinds:
             pass
         out.append('#include "%s"' % self.cfg['spec'])
